@@ -3,6 +3,7 @@
 package main
 
 import (
+	"time"
 	"bytes"
 	"fmt"
 	"sync"
@@ -96,7 +97,17 @@ func cmdC09(seed uint64, tier, outdir string) {
 				for i := range ins {
 					cw.printf("goroutines=%d round=%d g=%d %s\n", ngo, round, g, ins[i].name)
 					if got[g][i] != want[i] {
-						vw.printf("VIOL - %d goroutines, round %d, goroutine %d, input %s: concurrent result %s differs from sequential %s\n", ngo, round, g, ins[i].name, trunc(got[g][i], 200), trunc(want[i], 200))
+						// go-diff runs under a one-second deadline and returns a coarser diff when it expires: a text
+						// whose diff takes a sizeable part of that second when matched ALONE (race-detector build) can
+						// lose its match when dozens of goroutines share the cores (known finding, decided by timing the
+						// sequential call and checking that it still gives the sequential answer)
+						cls := "-"
+						t0 := time.Now()
+						again := fmtResults(shared.Match(ins[i].data))
+						if el := time.Since(t0); again == want[i] && el > 120*time.Millisecond {
+							cls = "diff-deadline-under-load"
+						}
+						vw.printf("VIOL %s %d goroutines, round %d, goroutine %d, input %s: concurrent result %s differs from sequential %s\n", cls, ngo, round, g, ins[i].name, trunc(got[g][i], 200), trunc(want[i], 200))
 					} else if len(want[i]) > 12 {
 						vw.printf("OK 1\n")
 					} else {
